@@ -37,7 +37,8 @@ CFG = dict(
           "like flags, '-', '--', '---s', '-=v', unknown/unparsable), every vector of length <= 2 over a "
           "39-token alphabet (adds names with '-', '.', non-ASCII and non-UTF-8 bytes) (thorough: <= 5 resp. <= 3), every flag with every value of its kind in the four spellings and repeated; three SMALL flag sets (2-4 flags) whose longest "
           "name is non-ASCII (or ties with 'config' in bytes) with all spellings and all vectors of length <= 3 over their own alphabet; "
-          "a GOARCH=386 pass over the integer-kind vectors (IntSize 32); histories of two Parse calls on ONE FlagSet (first call failing after recording flags, "
+          "a zoo of 36 nested struct types (one and two levels, groups of 1..6 inner fields placed first / middle / last) with all spellings and all "
+          "vectors of length <= 2 over their own alphabet; a GOARCH=386 pass over the integer-kind vectors (IntSize 32); histories of two Parse calls on ONE FlagSet (first call failing after recording flags, "
           "or succeeding; fixed and random vector pairs); the FromCommandLine entry point (os.Args) before and after testing.Init() registers package "
           "testing's flags in flag.CommandLine, with tokens spelled like every global flag in value position, after '--', after the first non-flag and as "
           "undefined flags; plain Parse again in that process state; and seeded "
